@@ -1,6 +1,7 @@
 package main
 
 import (
+	"fmt"
 	"verifharness/internal/gen"
 	"verifharness/internal/tr"
 )
@@ -66,6 +67,21 @@ func appCases(args []string) {
 				w.Emit(appCase{ID: id, Mode: "c11", In: tr.Ints(gen.Cat(head, last)), Hold: h, Chunk: 0, Seed: rng.Int63(), Cls: "c11-last"})
 			}
 		}
+		// rtcmfilter's other outputs (display log, record file), every combination of the two options
+		for k, dr := range [][2]bool{{true, true}, {true, false}, {false, true}, {true, true}, {true, true}, {true, true}} {
+			var in []byte
+			for j := 0; j < 6+rng.Intn(6); j++ {
+				in = append(in, tr.Frame(gen.RandomMSM(rng, gen.MSMTypes[rng.Intn(14)], 7, 0, 0, 0).Encode())...)
+				if j%4 == 1 {
+					in = append(in, gen.Junk(rng, 30, 1)...)
+				}
+			}
+			if k == 3 {
+				in = append(in, gen.Frame(rng, 1005, 19, 0)...)
+			}
+			id++
+			w.Emit(appCase{ID: id, Mode: "c11", In: tr.Ints(in), Hold: 0, Display: dr[0], Record: dr[1], Chunk: []int{0, 64, 1, 4096}[k%4], Seed: rng.Int63(), Cls: "c11-files"})
+		}
 		for i := 0; i < n; i++ {
 			var in []byte
 			switch i % 5 {
@@ -105,6 +121,15 @@ func appCases(args []string) {
 			}
 			id++
 			w.Emit(appCase{ID: id, Mode: "c10", In: tr.Ints(in), Display: k >= 2, Record: k%2 == 1, Chunk: []int{0, 1, 5, 64}[k], Seed: rng.Int63(), Cls: "alltypes"})
+		}
+		// long runs of other data in front of frames, lengths around the powers of two
+		for k, L := range []int{4095, 4096, 1023, 8191, 255, 16383, 4097, 8192} {
+			if !thorough && k >= 4 {
+				break
+			}
+			in := gen.Cat(gen.Junk(rng, L, 1), gen.Frame(rng, gen.TypeClass(rng, k), 1+rng.Intn(40), 0), gen.Frame(rng, 1230, 6, 0), gen.Frame(rng, 1005, 19, 0))
+			id++
+			w.Emit(appCase{ID: id, Mode: "c10", In: tr.Ints(in), Display: k%2 == 1, Record: k%3 == 0, Chunk: []int{0, 4096, 64, 1}[k%4], Seed: rng.Int63(), Cls: fmt.Sprintf("junk%d then frames", L)})
 		}
 		for i := 0; i < n; i++ {
 			var in []byte
